@@ -486,17 +486,30 @@ LAT6 = [0, 5, 10, 15, 20, 25]
 LON6 = [2.5, 5., 7.5, 10., 12.5, 15.]
 
 
+#  C06 `ctor`: called with (kind, object) for every data object (grid,
+#  ClimateData) that a driver builds and hands to a library constructor
+OBJ_HOOK = None
+
+
+def _supplied(kind, obj):
+    if OBJ_HOOK is not None:
+        OBJ_HOOK(kind, obj)
+    return obj
+
+
 def geo_grid(n=6):
     from pyunicorn.core import GeoGrid
-    return GeoGrid(time_seq=np.arange(10), lat_seq=np.array(LAT6[:n], float),
-                   lon_seq=np.array(LON6[:n], float), silence_level=3)
+    return _supplied("GeoGrid", GeoGrid(
+        time_seq=np.arange(10), lat_seq=np.array(LAT6[:n], float),
+        lon_seq=np.array(LON6[:n], float), silence_level=3))
 
 
 def plain_grid(n=6):
     from pyunicorn.core import Grid
-    return Grid(time_seq=np.arange(10),
-                space_seq=np.array([LAT6[:n], LON6[:n]], dtype=float),
-                silence_level=3)
+    return _supplied("Grid", Grid(
+        time_seq=np.arange(10),
+        space_seq=np.array([LAT6[:n], LON6[:n]], dtype=float),
+        silence_level=3))
 
 
 class SpatialDriver(NetworkDriver):
@@ -648,9 +661,10 @@ class ResDriver(Driver):
     def construct(self, model):
         from pyunicorn.core import GeoGrid
         n = len(RES_A)
-        grid = GeoGrid(time_seq=np.arange(10),
-                       lat_seq=np.absolute(np.linspace(-90, 90, n)),
-                       lon_seq=np.linspace(-180, 180, n), silence_level=3)
+        grid = _supplied("GeoGrid", GeoGrid(
+            time_seq=np.arange(10),
+            lat_seq=np.absolute(np.linspace(-90, 90, n)),
+            lon_seq=np.linspace(-180, 180, n), silence_level=3))
         return self.cls()(self.arr("resistances", RES_R[model["R"]], float),
                           grid=grid,
                           adjacency=self.arr("adjacency", RES_A, "int8"),
@@ -719,7 +733,9 @@ class ClimateDriver(Driver):
                 # caller's matrix already in the library's storage dtype,
                 # with negative similarities
                 {"t": 0.5, "non_local": False, "directed": False,
-                 "sim": "f32neg"}]
+                 "sim": "f32neg"},
+                # local links suppressed from the start
+                {"t": 0.5, "non_local": True, "directed": False}]
 
     def similarity(self, model):
         if model.get("sim") == "f32neg":
@@ -780,7 +796,7 @@ register(ClimateDriver())
 
 
 def climate_data(anomalies=False, window=None, T=10, time_cycle=5,
-                 rec=None):
+                 rec=None, second_layer=False):
     from pyunicorn.climate import ClimateData
     N = 6
     t = np.arange(T)[:, None]
@@ -790,14 +806,16 @@ def climate_data(anomalies=False, window=None, T=10, time_cycle=5,
     grid = GeoGrid(time_seq=np.arange(T), lat_seq=np.array(LAT6, float),
                    lon_seq=np.array(LON6, float), silence_level=3)
     obs = obs.astype(float)
+    if second_layer:
+        obs = obs[:, ::-1] * 0.7 + 0.1
     if FORM is not None and FORM[0] == "observable":
         from . import forms
         obs = forms.convert(obs, FORM[1])
     if rec is not None:
         rec["observable"] = obs
-    return ClimateData(observable=obs, grid=grid,
-                       time_cycle=time_cycle, anomalies=anomalies,
-                       window=window, silence_level=3)
+    return _supplied("ClimateData", ClimateData(
+        observable=obs, grid=grid, time_cycle=time_cycle,
+        anomalies=anomalies, window=window, silence_level=3))
 
 
 class TsonisDriver(ClimateDriver):
@@ -1775,10 +1793,8 @@ class CoupledTsonisDriver(_DataClimateDriver):
 
     def construct(self, model):
         d1 = climate_data(T=24, time_cycle=12)
-        d2 = climate_data(T=24, time_cycle=12)
-        # make the second layer different from the first
-        d2._full_observable[:] = d2._full_observable[:, ::-1] * 0.7 + 0.1
-        d2.set_global_window()
+        # the second layer differs from the first
+        d2 = climate_data(T=24, time_cycle=12, second_layer=True)
         return self.cls()(d1, d2, silence_level=3, **self.kwargs(model))
 
     def queries(self, model):
